@@ -54,9 +54,16 @@ def worker(args, scratch):
                     keys[guid] = "%064x" % r.getrandbits(256)
                     w.key(guid, keys[guid])
                     latched = True
+                    cur_guid = guid
                 else:
                     w.shim.call("clear_key")
                     latched = False
+                    cur_guid = None
+                # now and then the rules of an endpoint deny everything in AUDIT mode: such requests are relayed like allowed ones, and
+                # must be stamped like them
+                for ep in ("imds", "wireserver", "hostga"):
+                    w.rules(ep, {"defaultAccess": "deny", "mode": "audit", "id": "c05-audit-%d" % n, "rules": {"privileges": [], "roles": [], "identities": [], "roleAssignments": []}} if r.random() < 0.4 else None)
+                bump("policy_changes")
             vid = "c05-%d-%d" % (args["shard"], n)
             who = r.choice(callers)
             dest = r.choice(["imds", "other", "imds", "wireserver", "hostga"]) if who.elevated else r.choice(["imds", "other"])
@@ -70,7 +77,8 @@ def worker(args, scratch):
                     if name.endswith("date") and r.random() < 0.5:
                         val = "Mon, 01 Jan 2001 00:00:00 GMT"
                     if name.endswith("authorization") and r.random() < 0.5:
-                        val = "Azure-HMAC-SHA256 00000000-0000-0000-0000-000000000000 " + "ab" * 32
+                        # a plausible forgery; half of them name the key that IS latched at the moment (a key id is no secret)
+                        val = "Azure-HMAC-SHA256 %s " % (cur_guid if cur_guid and r.random() < 0.5 else "00000000-0000-0000-0000-000000000000") + "ab" * 32
                     hs.append((casemix(r, name), val))
                     spoofs.append((name, val))
             if r.random() < 0.12:
